@@ -254,12 +254,28 @@ func checksFail(c *spec.Checks) bool {
 	return false
 }
 
+// hasFailingCont: some continuous check is scripted to fail at SOME run. Which run a continuous check reaches before
+// its scope ends depends on timing (an uninterrupted run on a loaded machine may finish before the failing run, a
+// recovered one not), so the outcome of such a plan is not a function of the scripts alone.
 func hasFailingCont(ps *spec.Plan) bool {
-	if checksFail(ps.Cont) {
+	mayFail := func(c *spec.Checks) bool {
+		if c == nil {
+			return false
+		}
+		for _, a := range c.Actions {
+			for _, st := range a.Steps {
+				if st.Out != plug.OK {
+					return true
+				}
+			}
+		}
+		return false
+	}
+	if mayFail(ps.Cont) {
 		return true
 	}
 	for _, b := range ps.Blocks {
-		if checksFail(b.Cont) {
+		if mayFail(b.Cont) {
 			return true
 		}
 	}
